@@ -21,7 +21,7 @@ PROP = "C09"
 LEVEL = "fault_enumeration"
 ENGINE = "EP"
 N = {"quick": 1500, "thorough": 60000}
-TIME = {"quick": 40, "thorough": 420}
+TIME = {"quick": 300, "thorough": 420}
 POSITIONS = ["latent", "nonlatent"]
 RULE = ("Adverse-path fault enumeration: instrument {spot long leveraged w in (1,5], spot short w in [-3,0), ES / user future at "
         "5-30% margin either sign} x ruin placed {inside the latency window before decision j, in the non-latent batch of step j} x "
